@@ -1,6 +1,7 @@
 package main
 
 import (
+	"fmt"
 	"encoding/base64"
 	"encoding/binary"
 
@@ -70,6 +71,16 @@ func regKeyCredential() {
 	hand := cat([]byte{0, 2, 0, 0}, ent(1, make([]byte, 32)), ent(2, make([]byte, 32)), ent(3, rsa2.ToBytes()), ent(4, []byte{1}), ent(5, []byte{0}),
 		ent(6, make([]byte, 16)), ent(7, []byte{1, 0}), ent(8, []byte{1, 2, 3, 4, 5, 6, 7, 8}), ent(9, []byte{1, 2, 3, 4, 5, 6, 7, 8}))
 	kcSeeds = append(kcSeeds, hand, []byte{0, 2, 0, 0})
+	// the same with a key source that is not AD in front of the time stamps (another conversion path), for version 2,
+	// an unknown version and version 1; time stamps ordinary, all-ones, and with only the two top bits set (the
+	// kind / flag bits of other serialised time formats); and the source entry BEHIND the time stamps
+	for _, verb := range [][]byte{{0, 2, 0, 0}, {0, 3, 0, 0}, {0, 1, 0, 0}, {0xFF, 0xFF, 0xFF, 0xFF}} {
+		for _, srcv := range []byte{1, 2, 0xFF} {
+			for _, ts := range [][]byte{{1, 2, 3, 4, 5, 6, 7, 8}, {0xFF, 0xFF, 0xFF, 0xFF, 0xFF, 0xFF, 0xFF, 0xFF}, {0, 0, 0, 0, 0, 0, 0, 0xC0}, {0, 0, 0, 0, 0, 0, 0, 0x80}, {0, 0, 0, 0, 0, 0, 0, 0x40}} {
+				kcSeeds = append(kcSeeds, cat(verb, ent(5, []byte{srcv}), ent(8, ts), ent(9, ts)), cat(verb, ent(8, ts), ent(5, []byte{srcv}), ent(9, ts)))
+			}
+		}
+	}
 	bin("keycredential.KeyCredential.FromBytes", func(in []byte) error {
 		return (&kcl.KeyCredential{}).FromBytes(in)
 	}, kcSeeds...)
@@ -106,6 +117,14 @@ func regKeyCredential() {
 			kutils.ConvertFromBinaryTime(in, key.KeySource_AD, key.KeyCredentialVersion{Value: ver.v})
 			return nil
 		}, binary.LittleEndian.AppendUint64(nil, 132000000000000000), make([]byte, 8))
+		for _, src := range []key.KeySource{1, 2, 0xFF} {
+			src := src
+			bin(fmt.Sprintf("keycredential.utils.ConvertFromBinaryTime[%s,source=%d]", ver.n, src), func(in []byte) error {
+				kutils.ConvertFromBinaryTime(in, src, key.KeyCredentialVersion{Value: ver.v})
+				kutils.ConvertFromBinaryTime(in, src, key.KeyCredentialVersion{Value: ver.v + 0x100})
+				return nil
+			}, binary.LittleEndian.AppendUint64(nil, 132000000000000000), make([]byte, 8), []byte{0xFF, 0xFF, 0xFF, 0xFF, 0xFF, 0xFF, 0xFF, 0xFF}, []byte{0, 0, 0, 0, 0, 0, 0, 0xC0})
+		}
 		text("keycredential.utils.ConvertToBinaryIdentifier["+ver.n+"]", "0aAfg=+/ ", 4, 5, func(s string) error {
 			_, err := kutils.ConvertToBinaryIdentifier(s, key.KeyCredentialVersion{Value: ver.v})
 			return err
